@@ -5,7 +5,7 @@ from fractions import Fraction
 
 import torch
 
-RULE = ('random Conv2d geometries (channels ≤ 3, rectangular kernels ≤ 3, strides ≤ 3, zero paddings ≤ 2 with '
+RULE = ('[inputs in contiguous / channels_last / cropped-view layouts; helpers reused after inputs with more rows] random Conv2d geometries (channels ≤ 3, rectangular kernels ≤ 3, strides ≤ 3, zero paddings ≤ 2 with '
         'pad_h ≠ pad_w, non-square inputs ≤ 7 incl. sizes not divisible by the stride, bias on/off, batch ≤ 3) and '
         'Linear layers with inputs of rank 2–4, all with small-integer data: real _extract_patches / get_a_factor / '
         'get_g_factor / get_grad / set_grad / advertised shapes compared exactly with the Lean index model; oracles: '
@@ -84,15 +84,29 @@ def conv_case(ctx, rng, lines, pend):
     want = Grow.t() @ P1
     try:
         got = hlp.get_grad()
-        xc = x.detach().clone()
+        # the activation K-FAC is handed may have any memory layout: contiguous NCHW, channels_last (which .clone(), .to()
+        # and F.pad preserve), or a cropped / strided view of a larger tensor
+        layout = rng.choice(['contiguous', 'contiguous', 'channels_last', 'cropped'])
+        case['input_layout'] = layout
+
+        def relayout(t):
+            if layout == 'channels_last':
+                return t.clone().contiguous(memory_format=torch.channels_last)
+            if layout == 'cropped':
+                big = torch.full((t.shape[0], t.shape[1], t.shape[2] + 3, t.shape[3] + 4), 7.0, dtype=t.dtype)
+                big[:, :, 1:t.shape[2] + 1, 2:t.shape[3] + 2] = t
+                return big[:, :, 1:t.shape[2] + 1, 2:t.shape[3] + 2]
+            return t.clone()
+        xc = relayout(x.detach())
+        st0 = xc.stride()
         patches = hlp._extract_patches(xc)
-        if tuple(xc.shape) != tuple(x.shape) or xc.stride() != x.detach().stride() or not torch.equal(xc, x.detach()):
+        if tuple(xc.shape) != tuple(x.shape) or xc.stride() != st0 or not torch.equal(xc, x.detach()):
             ctx.fail('_extract_patches changed the tensor it was given (shape/stride/values of the caller\'s input)', case, 'input-mutated')
         # ... and the same tensor can be used again: patch extraction is a function of its argument
         patches2 = hlp._extract_patches(xc)
         if patches2.shape != patches.shape or not torch.equal(patches2, patches):
             ctx.fail('_extract_patches gives a different result when called again on the same tensor', case, 'input-mutated')
-        xa = x.detach().clone()
+        xa = relayout(x.detach())
         A = hlp.get_a_factor(xa)
         if tuple(xa.shape) != tuple(x.shape) or not torch.equal(xa, x.detach()):
             ctx.fail('get_a_factor changed the tensor it was given', case, 'input-mutated')
@@ -160,6 +174,14 @@ def lin_case(ctx, rng, lines, pend):
     X1 = torch.cat([X, torch.ones(X.shape[0], 1, dtype=torch.float64)], 1) if bias else X
     want = gout.reshape(-1, fout).t() @ X1
     got = hlp.get_grad()
+    if rng.random() < 0.5:
+        # the SAME helper saw other inputs before (more rows: a full batch before the epoch's last partial one, a longer
+        # sequence): each factor is a function of the input it is given
+        for _ in range(rng.randrange(1, 3)):
+            more = torch.randint(-3, 4, (rng.randrange(1, 4) + max(1, x.reshape(-1, fin).shape[0]), fin)).double()
+            hlp.get_a_factor(more)
+            hlp.get_g_factor(torch.randint(-2, 3, (more.shape[0], fout)).double())
+        case['helper_history'] = True
     A = hlp.get_a_factor(x.clone())
     G = hlp.get_g_factor(gout.clone())
     if not torch.equal(got, want):
